@@ -328,13 +328,12 @@ def run_b8(chk, repo):
                               witness=f'{name.upper()}(X) is regenerated in Python syntax')
     fm = repo.module('pharmpy.internals.expr.funcs')
     for rule in sorted(arity):
-        h = repo.find_method(ei, rule)
-        if h is None:
+        from rules.C01b import interpreter_handler_value
+        r = interpreter_handler_value(repo, crm, ei, rule)
+        if r is None:
+            if repo.find_method(ei, rule) is not None:
+                raise AnalysisError(f'B8: handler {rule} has no single return')
             continue
-        rets = [n.value for n in walk_no_nested(h.node) if isinstance(n, ast.Return) and n.value is not None]
-        if len(rets) != 1:
-            raise AnalysisError(f'B8: handler {rule} has no single return')
-        r = rets[0]
         if isinstance(r, ast.Attribute) and unparse(r.value) == 'sympy':
             check_sympy_callable(r.attr, rule, f'rule {rule}')
         elif isinstance(r, ast.Name):
